@@ -126,6 +126,17 @@ EQUIVALENT = {
  ('adaptation.go', 202, 'sibling-field'): 'Adaptation.Stop is outside every claimed property',
  ('result.go', 1075, 'sibling-field'): 'the owners copy is taken of the target of an ignore-failure update; mount claims only exist for the container being created, which an update cannot target',
  ('stub.go', 379, 'sibling-field'): 'failure path of Start before the listener exists',
+ ('plugin.go', 489, 'sibling-field'): 'log text only',
+ ('update.go', 195, 'sibling-field'): 'adds an empty CPU section to an update that sets the pids limit: no field of it is set, nothing is claimed or applied',
+ ('plugin.go', 243, 'sibling-field'): 'log text only', ('adaptation.go', 510, 'sibling-field'): 'log level only',
+ ('adaptation.go', 518, 'sibling-field'): 'log level only', ('adaptation.go', 594, 'sibling-field'): 'log text only',
+ ('plugin.go', 338, 'sibling-field'): 'a dropped plugin is marked closed and gets nothing more, but its connection stays open: C07 and C17 state what the dropped plugin receives, not that its connection is closed',
+ ('generate.go', 535, 'sibling-field'): 'the spec under test always has a linux section, the two initialisers then do the same',
+ ('resources.go', 131, 'sibling-field'): 'device cgroup rules inside LinuxResources: the generator does not apply them (it derives the rules from the device list)',
+ ('adjustment.go', 336, 'sibling-field'): 'adds an empty CPU section to an adjustment that sets the pids limit: no field of it is set',
+ ('result.go', 1098, 'sibling-field'): 'CDI device claims land in the table of device paths: still one owner per name, and a CDI name never equals a device path',
+ ('adaptation.go', 249, 'sibling-field'): 'as c07-no-prune: a closed plugin that stays listed is skipped by the next relay and pruned by the next request',
+ ('stub.go', 484, 'sibling-field'): 'the server stops when its listener fails after the mux is closed',
 }
 cnt = collections.Counter(r['outcome'].split(' (')[0] for r in rs)
 print(len(rs), 'mutants:', dict(cnt))
